@@ -69,7 +69,16 @@ UNITS = sum([
     _u("train_function", _TRN, _tn, "VP_H_TRAIN_PERIPH", ["bidib_config_parse_single_train_peripheral"], ["id", "bit", "initial", "p", "q", "r", "1", "31", "32", "zz"], 8),
     _u("train", _TRN, _tn, "VP_H_TRAIN", ["bidib_config_parse_single_train"], ["id", "dcc-address", "dcc-speed-steps", "calibration", "peripherals", "r", "0x1234", "28", "zz"], 14, elt=16, prefix=5),
     _u("board", _BRD, _tb, "VP_H_BOARD", ["bidib_config_parse_single_board_features"], ["id", "unique-id", "features", "number", "value", "B", "zz"], 14, quick=6, elt=2, prefix=3, timeout=3000, props=["C13", "C14", "C19"]),
+    _u("scalar_then_section", "units/C13/parser_top.c", [f.name for f in _t.by_file[csrc.REPO + "/src/parser/bidib_config_parser.c"]], "VP_H_SECTION", ["bidib_config_parse_scalar_then_section"], ["boards", "trains", "zz"], 9, prefix=3),
 ], []) + [
+    Unit(name="C13.config_file_" + n, src="units/C13/parser_top.c", defines=["VP_H_TOP", 'VP_PARSER_SRC="src/parser/bidib_config_parser_%s.c"' % n, "VP_TOP_FN=bidib_config_parse_%s_config" % n, 'VP_POOL="x"', "VP_MAX_EVENTS=1"],
+         functions=["bidib_config_parse_%s_config" % n], props=["C13"], no_dfcc=True,
+         remove_bodies=[f.name for f in _t.by_file[csrc.REPO + "/src/parser/bidib_config_parser_%s.c" % n] if f.name != "bidib_config_parse_%s_config" % n],
+         extra_flags=["--nondet-static", "--unwind", "4"], covers=3, min_obligations=6, timeout=300,
+         stubbed_contracts=["bidib_config_init_parser (may fail; on success opens the file and initialises the parser)", "bidib_config_parse_scalar_then_section (may fail)", "yaml_parser_delete / fclose (resource ledger)"],
+         note="loop-free: complete")
+    for n in ("board", "track", "train")
+] + [
     Unit(name="C13.free_single_" + n, src="units/C13/free_board.c", defines=d + ["VP_GLIB_FIXED_CAP=2"], functions=[fn], props=["C13"], no_dfcc=True, kind="bounded",
          bound="record with 0..1 element per list; loops unwound completely",
          remove_bodies=[f.name for f in _t.by_file[csrc.REPO + "/src/state/bidib_state_free.c"] if f.name != fn], extra_flags=["--nondet-static", "--unwind", "4", "--unwindset", "vp_bytes.0:41"],
